@@ -259,6 +259,8 @@ class PWorld(object):
                 dd.add_component(np.array([4.0, 5.0, 6.0]), x['n'])
             elif x['k'] == 'cat':
                 dd.add_component(np.array(['p', 'q', 'p']), x['n'])
+            elif x['k'] == 'time':
+                dd.add_component(np.datetime64('2022-01-01') + np.arange(3) * np.timedelta64(1, 'D'), x['n'])
             else:
                 dd[x['n']] = dd.id['a'] * 2
         elif op == 'AttrRemove':
@@ -276,6 +278,7 @@ class PWorld(object):
             self.helper.numeric = x['numeric']
             self.helper.categorical = x['categorical']
             self.helper.derived = x['derived']
+            self.helper.datetime = x.get('datetime', True)
         elif op == 'Select':
             choices = [c for c in self.helper.choices if not _is_separator(c)]
             self.state.att = choices[x - 1]
